@@ -249,13 +249,15 @@ CLAIMED.update({
     'C13': dict(
         text='Lean 4 model of the discrete core of the COLMAP converter: pair-id arithmetic GENERATED from database.py on every run, '
              'image-id assignment from names, match column swap on export and its undo on import, the camera model table, points '
-             'and tracks under id renumbering, world pose of (nested) rig-mounted cameras on the C05/C06 algebra; 21 theorems incl. '
+             'and tracks under id renumbering, world pose of (nested) rig-mounted cameras on the C05/C06 algebra, and the text layer '
+             'of cameras.txt / images.txt / points3D.txt (Model/C13Text: tokens, multi-word image names, two lines per image, '
+             'the importer\'s first pass; images_first_pass, image_line_roundtrip); 26 theorems incl. '
              'pairId_roundtrip (ofPairId (toPairId a b) = (min a b, max a b) for all valid ids), pairId_injective, '
              'match_loop_any_ids, points_tracks_loop, nested_rig_camera_world_pose. Tied by full export_colmap -> import_colmap '
              'loops on generated in-range datasets compared with the model at the database, text-file and re-imported-dataset '
              'levels, plus an implementation-only oracle by image name.',
-        note=COMMON_NOTE + 'PARTIAL: SQLite, text writers/readers, numpy blobs, float printing/parsing and the csv loader are '
-             'exercised by the loops only; datasets without a trajectories part are judged by the oracle only.',
+        note=COMMON_NOTE + 'PARTIAL: SQLite, numpy blobs, float printing/parsing and the csv loader are '
+             'exercised by the loops only (the text layer of the reconstruction files is modelled and tied byte for byte); datasets without a trajectories part are judged by the oracle only.',
         technique='Lean 4 proof on generated pair-id arithmetic and the converter\'s indexing core + full export-import loop correspondence',
         design_ref='DESIGN.md §6 C13'),
     'C14': dict(
